@@ -1,3 +1,23 @@
-from simlab.profiles.chainprof import make_module_api
+"""C06: sector / label monitor over algebra sessions (runs 0 mod 3), real-time (1 mod 3) and imaginary-time/thermal (2 mod 3) sessions."""
+import random
+from simlab import session
+from simlab.profiles.chainprof import ChainProfile
+from simlab.profiles.evoprof import EvoProfile, W_C09, W_C10
+
 ID = "C06"
-generate_and_run, replay = make_module_api("C06")
+_P = {"algebra": ChainProfile("C06"), "real": EvoProfile("C06", dict(W_C09, truncate=0.8, add=0.8, apply=0.8)), "imag": EvoProfile("C06", dict(W_C10, truncate=0.5))}
+_ORDER = ["algebra", "real", "imag"]
+
+
+def generate_and_run(seed, index, tier):
+    fam = _ORDER[index % 3]
+    prof = _P[fam]
+    rnd = random.Random(seed)
+    header = prof.gen_header(rnd, tier)
+    header["tier"] = tier
+    header["family"] = fam
+    return session._run(prof, header, None, rnd, prof.nsteps(rnd, tier), tier)
+
+
+def replay(plan):
+    return session.replay(_P[plan["header"].get("family", "algebra")], plan)
